@@ -320,7 +320,7 @@ def known_match(entry, case, fail):
 
 
 def subchecks(ctx):
-    return [Sub("reports", case_gen(), prop, {"quick": 25, "thorough": 1500},
+    return [Sub("reports", case_gen(), prop, {"quick": 60, "thorough": 1500},
                 nontrivial=lambda c: True,
                 classes=lambda c: ["kind:" + c["content"]["kind"], "loop:%d" % c["flags"][0], "unc:%d" % c["flags"][4]],
                 known_match=known_match,
